@@ -1639,3 +1639,36 @@ def m_set_ops(it, argv, text):
             if S.map_find(it, a, kv.f[0]) is None:
                 out.append(kv.f[0])
     return IterV('list', (tuple(RefV(it.alloc(x)) for x in out), 0))
+
+
+@model('slice::chunks', 'slice::chunks_exact')
+def m_chunks(it, argv, text):
+    xs = _seq_vals(it, argv[0])
+    n = argv[1]
+    if n == 0:
+        raise RustPanic("chunk size must be non-zero")
+    out = [VecV(tuple(xs[i:i + n])) for i in range(0, len(xs), n)]
+    if text.split('::<')[0].endswith('chunks_exact') and out and len(out[-1].e) != n:
+        out = out[:-1]
+    return IterV('list', (tuple(out), 0))
+
+
+@model('slice::windows')
+def m_windows(it, argv, text):
+    xs = _seq_vals(it, argv[0])
+    n = argv[1]
+    return IterV('list', (tuple(VecV(tuple(xs[i:i + n])) for i in range(0, max(0, len(xs) - n + 1))), 0))
+
+
+@model('slice::iter_bytes', 'slice::copy_from_slice', 'slice::clone_from_slice')
+def m_copy_from_slice(it, argv, text):
+    dst = argv[0]
+    src = _seq_vals(it, argv[1])
+    if isinstance(dst, RefV):
+        inner = it.load(dst.addr)
+        dst = SliceV(dst.addr, 0, len(inner.e))
+    if dst.end - dst.start != len(src):
+        raise RustPanic("source slice length does not match destination slice length")
+    base = it.load(dst.addr)
+    it.store(dst.addr, VecV(base.e[:dst.start] + tuple(src) + base.e[dst.end:]))
+    return UNIT
